@@ -1059,6 +1059,7 @@ func (f *Frame) execBlock(b *ssa.BasicBlock, entryReach string, entrySt *State) 
 				continue // unreachable predecessor (e.g. recover block)
 			}
 			edges = append(edges, inEdge{p, And(pr, f.edgeCond(p, b)), f.endSt[p]})
+			f.leaveObligations(p, b, And(pr, f.edgeCond(p, b)), f.endSt[p])
 		}
 		if len(edges) == 0 {
 			return // unreachable
@@ -1408,6 +1409,63 @@ func (f *Frame) checkBackEdge(l *loop, from *ssa.BasicBlock, cond string, st *St
 	}
 	for phi, v := range saved {
 		f.vals[phi] = v
+	}
+}
+
+// loopLeaves: the `loop N leaves-when e` clauses of loop l (top-level function only).
+func (f *Frame) loopLeaves(l *loop) []Clause {
+	if f != f.top || f.contract == nil {
+		return nil
+	}
+	if ls := f.contract.Loops[fmt.Sprint(l.ordinal)]; ls != nil {
+		return ls.Leaves
+	}
+	return nil
+}
+
+// leaveObligations: for an edge p -> b that leaves loop l for the code after it, prove the
+// loop's leaves-when clauses. Edges into blocks that can only return (early returns inside the
+// loop body) are not such edges: only targets reachable from the loop's normal exit count, when the
+// loop has one.
+func (f *Frame) leaveObligations(p, b *ssa.BasicBlock, cond string, st *State) {
+	for _, l := range f.loops.ordered {
+		if !l.blocks[p] || l.blocks[b] {
+			continue
+		}
+		leaves := f.loopLeaves(l)
+		if len(leaves) == 0 {
+			continue
+		}
+		var normal []*ssa.BasicBlock
+		for _, s := range l.head.Succs {
+			if !l.blocks[s] {
+				normal = append(normal, s)
+			}
+		}
+		if len(normal) > 0 {
+			seen := map[*ssa.BasicBlock]bool{}
+			work := append([]*ssa.BasicBlock(nil), normal...)
+			for len(work) > 0 {
+				x := work[len(work)-1]
+				work = work[:len(work)-1]
+				if seen[x] {
+					continue
+				}
+				seen[x] = true
+				work = append(work, x.Succs...)
+			}
+			if !seen[b] {
+				continue
+			}
+		}
+		for _, lv := range leaves {
+			env := f.loopEnv(l, st)
+			g, err := env.evalGoal(lv.E)
+			if err != nil {
+				f.bail("loop %d leaves-when %q: %v", l.ordinal, lv.Text, err)
+			}
+			f.oblig("loop-exit", p.Instrs[len(p.Instrs)-1].Pos(), fmt.Sprintf("loop %d leaves-when: %s", l.ordinal, lv.Text), cond, g)
+		}
 	}
 }
 
